@@ -91,7 +91,7 @@ inductive DocErr where
 
 /-- exceptions outside the documented hierarchy -/
 inductive Exc where
-  | attributeError | valueError | typeError | importError | notImplementedError
+  | attributeError | valueError | typeError | importError | notImplementedError | moduleNotFoundError
   deriving Repr, DecidableEq
 
 inductive Via where
@@ -403,5 +403,200 @@ def valueTagsFields : List (String × PyVal) → List (Option Json)
   | [] => []
   | (_, v) :: r => valueTags v ++ valueTagsFields r
 end
+
+/-! ### The decision structure of `from_json` as DATA (second tie: regenerated from the source on every run)
+
+After the leaf and list cases `SubclassJSONSerializer.from_json` is a straight line of *stages*: each attempts one
+thing; some are wrapped in `try … except (classes): raise Error`, some are guards `if …: raise Error`; two return.
+`StageTable` describes that line as first-order data, `interp` is an interpreter of such tables over the import
+environment (it knows what each primitive raises in Python and which `except` class catches what), and
+`stageTable` is the table of the code as it is. `harness/translate/c19_translate.py` rebuilds the table from the
+AST of /repo's current `json_serializer.py`; the kernel re-checks `Translated.stageTable = stageTable`. -/
+
+/-- what a stage attempts -/
+inductive Op where
+  | getTag              -- `tag = data.get(JSON_TYPE_NAME)`
+  | checkTruthy         -- guard `if not tag`
+  | checkIsStr          -- guard `if not isinstance(tag, str)`
+  | rsplit              -- `module_name, class_name = tag.rsplit(".", 1)`  (AttributeError on a non-string, ValueError without a dot)
+  | importModule        -- `module = importlib.import_module(module_name)`
+  | getattrClass        -- `target = getattr(module, class_name)`
+  | checkIsType         -- guard `if not isinstance(target, type)`
+  | subclassBranch      -- `issubclass(target, SubclassJSONSerializer)` (TypeError on a non-class); opens the serializer branch
+  | implementsFromJson  -- guard, serializer branch only: `target._from_json` is the base's unimplemented method
+  | callFromJson        -- serializer branch only: `return target._from_json(data, **kwargs)`
+  | registryLookup      -- `deser = JSONSerializableTypeRegistry().get_deserializer(target)`
+  | checkRegistered     -- guard `if not deser`
+  | callRegistry        -- `return deser(data, **kwargs)`
+  deriving Repr, DecidableEq
+
+/-- exception classes that may be named in an `except` clause -/
+inductive ExcClass where
+  | exception | importError | moduleNotFoundError | valueError | typeError | attributeError
+  | notImplementedError | runtimeError
+  | other   -- any class that catches none of the exceptions the primitives raise (KeyError, OSError, …)
+  deriving Repr, DecidableEq
+
+/-- `isinstance(raised, class)`: Python's exception hierarchy restricted to what the primitives raise -/
+def catches : ExcClass → Exc → Bool
+  | .exception, _ => true
+  | .importError, .importError => true
+  | .importError, .moduleNotFoundError => true
+  | .moduleNotFoundError, .moduleNotFoundError => true
+  | .valueError, .valueError => true
+  | .typeError, .typeError => true
+  | .attributeError, .attributeError => true
+  | .notImplementedError, .notImplementedError => true
+  | .runtimeError, .notImplementedError => true
+  | _, _ => false
+
+/-- one stage: what is attempted, the classes caught around it (order-free; the translator sorts them), and the
+documented error raised when the guard fires / a caught exception arrives (`none`: the stage raises nothing itself) -/
+structure Stage where
+  op : Op
+  caught : List ExcClass
+  error : Option DocErr
+  deriving Repr, DecidableEq
+
+abbrev StageTable := List Stage
+
+/-- local variables of `from_json` bound so far -/
+structure Locals where
+  tag : Option (Option Json) := none          -- bound by getTag (`some none` = Python `None`)
+  names : Option (String × String) := none    -- module_name, class_name
+  module : Option String := none              -- the imported module
+  target : Option AttrKind := none            -- what getattr found (never `.missing`)
+  ser : Option Bool := none                   -- result of the issubclass test
+  reg : Option Bool := none                   -- is a deserializer registered
+
+inductive Step where
+  | next (l : Locals)      -- falls through to the next stage
+  | raised (x : Exc)       -- the primitive raised
+  | fire                   -- the guard is true
+  | ret (o : Outcome)      -- the function returns (a dispatch)
+  | stuck                  -- uses a variable that is not bound: not a table of a running program
+
+def isStrTag : Option Json → Bool
+  | some (.str _) => true
+  | _ => false
+def tagTruthy : Option Json → Bool
+  | some t => t.truthy
+  | none => false
+
+/-- what one primitive does (Python semantics of the operation, the environment supplying import and getattr) -/
+def step (env : Env) (data : Option Json) (op : Op) (l : Locals) : Step :=
+  match op with
+  | .getTag => .next { l with tag := some data }
+  | .checkTruthy =>
+    match l.tag with
+    | some t => if tagTruthy t then .next l else .fire
+    | none => .stuck
+  | .checkIsStr =>
+    match l.tag with
+    | some t => if isStrTag t then .next l else .fire
+    | none => .stuck
+  | .rsplit =>
+    match l.tag with
+    | some (some (.str s)) =>
+      (match rsplit s with
+       | some mc => .next { l with names := some mc }
+       | none => .raised .valueError)
+    | some _ => .raised .attributeError
+    | none => .stuck
+  | .importModule =>
+    match l.names with
+    | some (m, _) =>
+      (match env.importModule m with
+       | .ok => .next { l with module := some m }
+       | .notFound => .raised .moduleNotFoundError
+       | .importErr => .raised .importError
+       | .valueErr => .raised .valueError
+       | .typeErr => .raised .typeError)
+    | none => .stuck
+  | .getattrClass =>
+    match l.module, l.names with
+    | some m, some (_, c) =>
+      (match env.getattr m c with
+       | .missing => .raised .attributeError
+       | k => .next { l with target := some k })
+    | _, _ => .stuck
+  | .checkIsType =>
+    match l.target with
+    | some (.cls _ _ _ _) => .next l
+    | some _ => .fire
+    | none => .stuck
+  | .subclassBranch =>
+    match l.target with
+    | some (.cls _ ser _ _) => .next { l with ser := some ser }
+    | some _ => .raised .typeError
+    | none => .stuck
+  | .implementsFromJson =>
+    match l.ser, l.target with
+    | some true, some (.cls _ _ _ impl) => if impl then .next l else .fire
+    | some false, some _ => .next l
+    | _, _ => .stuck
+  | .callFromJson =>
+    match l.ser, l.target with
+    | some true, some (.cls k _ _ impl) => if impl then .ret (.dispatch k .fromJson) else .raised .notImplementedError
+    | some false, some _ => .next l
+    | _, _ => .stuck
+  | .registryLookup =>
+    match l.target with
+    | some (.cls _ _ reg _) => .next { l with reg := some reg }
+    | some _ => .next { l with reg := some false }
+    | none => .stuck
+  | .checkRegistered =>
+    match l.reg with
+    | some r => if r then .next l else .fire
+    | none => .stuck
+  | .callRegistry =>
+    match l.reg, l.target with
+    | some true, some (.cls k _ _ _) => .ret (.dispatch k .registry)
+    | some _, some _ => .raised .typeError      -- calling `None`
+    | _, _ => .stuck
+
+/-- run a table from a given point; `none` = not the table of a running program (unbound variable, a handler without
+a `raise`, falling off the end) -/
+def interpFrom (env : Env) (data : Option Json) : StageTable → Locals → Option Outcome
+  | [], _ => none
+  | stg :: rest, l =>
+    match step env data stg.op l with
+    | .next l' => interpFrom env data rest l'
+    | .raised x => if stg.caught.any (catches · x) then stg.error.map .err else some (.escape x)
+    | .fire => stg.error.map .err
+    | .ret o => some o
+    | .stuck => none
+
+def interp (t : StageTable) (env : Env) (data : Option Json) : Option Outcome := interpFrom env data t {}
+
+/-- the code as it is at this commit (= `resolve Quirks.current`, theorem `fromJson_eq_interp`) -/
+def stageTable : StageTable :=
+  [ ⟨.getTag, [], none⟩,
+    ⟨.checkTruthy, [], some .missingType⟩,
+    ⟨.checkIsStr, [], some .invalidFormat⟩,
+    ⟨.rsplit, [.valueError], some .invalidFormat⟩,
+    ⟨.importModule, [.importError, .valueError, .typeError], some .unknownModule⟩,
+    ⟨.getattrClass, [.attributeError], some .classNotFound⟩,
+    ⟨.checkIsType, [], some .classNotFound⟩,
+    ⟨.subclassBranch, [], none⟩,
+    ⟨.implementsFromJson, [], some .notDeserializable⟩,
+    ⟨.callFromJson, [], none⟩,
+    ⟨.registryLookup, [], none⟩,
+    ⟨.checkRegistered, [], some .notDeserializable⟩,
+    ⟨.callRegistry, [], none⟩ ]
+
+/-- the code as it was found (commit 03a79e4; = `resolve Quirks.all`, theorem `asFound_eq_interp`): no string check,
+only ModuleNotFoundError caught around the import, no class check, no `_from_json` check -/
+def stageTableAsFound : StageTable :=
+  [ ⟨.getTag, [], none⟩,
+    ⟨.checkTruthy, [], some .missingType⟩,
+    ⟨.rsplit, [.valueError], some .invalidFormat⟩,
+    ⟨.importModule, [.moduleNotFoundError], some .unknownModule⟩,
+    ⟨.getattrClass, [.attributeError], some .classNotFound⟩,
+    ⟨.subclassBranch, [], none⟩,
+    ⟨.callFromJson, [], none⟩,
+    ⟨.registryLookup, [], none⟩,
+    ⟨.checkRegistered, [], some .notDeserializable⟩,
+    ⟨.callRegistry, [], none⟩ ]
 
 end KrroodVerif.Json
